@@ -5,7 +5,12 @@ pub mod c01;
 pub mod c02;
 pub mod c04;
 pub mod c05;
+pub mod c09;
 pub mod c10;
+pub mod c14;
+pub mod c15;
+pub mod c19;
+pub mod refcodec;
 pub mod setmodel;
 
 use std::collections::HashMap;
